@@ -49,10 +49,11 @@ type rawPeer struct {
 	ownFiles   []string
 	gotFds     []int // descriptors received from the peer (server role, memfd)
 
-	mu     sync.Mutex
-	recvd  []rawRecv
-	closed uint32
-	wmu    sync.Mutex
+	mu      sync.Mutex
+	recvd   []rawRecv
+	closed  uint32
+	wmu     sync.Mutex
+	readers sync.WaitGroup // background readers of fd (startDiscard); close waits for them before the number can be reused
 }
 
 // rawFromConn takes over a dup of the connection's descriptor (blocking mode); the net.Conn is closed.
@@ -89,6 +90,7 @@ func (r *rawPeer) isClosed() bool { return atomic.LoadUint32(&r.closed) == 1 }
 func (r *rawPeer) close() {
 	if atomic.CompareAndSwapUint32(&r.closed, 0, 1) {
 		_ = unix.Shutdown(r.fd, unix.SHUT_RDWR) // wakes a reader of our own that is blocked in poll/read
+		r.readers.Wait()                        // nobody may still use the descriptor number once it is closed (reuse!)
 		r.file.Close()
 	}
 }
@@ -98,6 +100,36 @@ func (r *rawPeer) closeAbrupt() {
 	if atomic.CompareAndSwapUint32(&r.closed, 0, 1) {
 		r.file.Close()
 	}
+}
+
+// startDiscard: a background reader drops whatever the peer writes on the socket (polling events, close events), so
+// that the peer's writers never block on a full socket buffer. The raw peer still never *sends* by itself.
+func (r *rawPeer) startDiscard() {
+	r.readers.Add(1)
+	go func() {
+		defer r.readers.Done()
+		buf := make([]byte, 4096)
+		for {
+			if r.isClosed() {
+				return
+			}
+			pfd := []unix.PollFd{{Fd: int32(r.fd), Events: unix.POLLIN}}
+			n, err := unix.Poll(pfd, 200)
+			if err == unix.EINTR || (err == nil && n == 0) {
+				continue
+			}
+			if err != nil || r.isClosed() {
+				return
+			}
+			m, err := unix.Read(r.fd, buf)
+			if err == unix.EINTR || err == unix.EAGAIN {
+				continue
+			}
+			if err != nil || m == 0 {
+				return
+			}
+		}
+	}()
 }
 
 // ---------------------------------------------------------------------------------------------
@@ -517,18 +549,19 @@ func (r *rawPeer) sawType(t eventType) bool {
 type rawStep struct {
 	Name    string
 	Send    bool
-	HasBody bool                           // the message has a body after the header (can be cut in the middle)
-	bytes   func(r *rawPeer) []byte        // send steps that are plain bytes
+	HasBody bool                                     // the message has a body after the header (can be cut in the middle)
+	bytes   func(r *rawPeer) []byte                  // send steps that are plain bytes
 	run     func(r *rawPeer, to time.Duration) error // everything else
 }
 
 // Exchanges (raw peer's role and generation):
-//   c3m  client, protocol 3, memfd:  >Exchange <Exchange >MetaMemfd <AckReadyRecvFD >Fds <AckShareMemory
-//   c3f  client, protocol 3, files:  >Exchange <Exchange >MetaFile <AckShareMemory
-//   c2f  client, protocol 2, files:  >MetaFile(v2)
-//   s3m  server for a memfd client:  <Exchange >Exchange <MetaMemfd >AckReadyRecvFD <Fds(map) >AckShareMemory
-//   s2f  server for a v2 client:     <MetaFile(map)
-//   s2dg server that answers the version exchange with version 2 (downgrade): <Exchange >Exchange(v2) <MetaFile(v2)
+//
+//	c3m  client, protocol 3, memfd:  >Exchange <Exchange >MetaMemfd <AckReadyRecvFD >Fds <AckShareMemory
+//	c3f  client, protocol 3, files:  >Exchange <Exchange >MetaFile <AckShareMemory
+//	c2f  client, protocol 2, files:  >MetaFile(v2)
+//	s3m  server for a memfd client:  <Exchange >Exchange <MetaMemfd >AckReadyRecvFD <Fds(map) >AckShareMemory
+//	s2f  server for a v2 client:     <MetaFile(map)
+//	s2dg server that answers the version exchange with version 2 (downgrade): <Exchange >Exchange(v2) <MetaFile(v2)
 func rawScript(kind string) []rawStep {
 	sendBytes := func(name string, body bool, f func(r *rawPeer) []byte) rawStep {
 		return rawStep{Name: name, Send: true, HasBody: body, bytes: f}
